@@ -217,6 +217,61 @@ func suiteZipEq(c *Ctx) error {
 	diff.VerifEquivalenceTrace = tr.trace
 	defer func() { diff.VerifEquivalenceTrace = nil }()
 	pairsRun := 0
+	// enforceControlFlow differential: the maps right before the pass (hook) go through the Lean model
+	// (Model/ZipperCF.enforce); the surviving pairs must be the real maps after the pass
+	var cfLines, cfWant, cfInfo []string
+	var preMaps map[ssa.Instruction]ssa.Instruction
+	diff.VerifBeforeEnforce = func(z *diff.Zipper) {
+		fwd, _ := z.VerifInstrMaps()
+		preMaps = make(map[ssa.Instruction]ssa.Instruction, len(fwd))
+		for k, v := range fwd {
+			preMaps[k] = v
+		}
+	}
+	defer func() { diff.VerifBeforeEnforce = nil }()
+	layoutOf := func(fn *ssa.Function) (string, map[ssa.Instruction]int) {
+		ids := map[ssa.Instruction]int{}
+		id := 0
+		var blocks, succs, preds, phis []string
+		csv := func(bs []*ssa.BasicBlock) string {
+			var p []string
+			for _, b := range bs {
+				p = append(p, fmt.Sprint(b.Index))
+			}
+			return strings.Join(p, ",")
+		}
+		for _, b := range fn.Blocks {
+			var l []string
+			for _, in := range b.Instrs {
+				ids[in] = id
+				l = append(l, fmt.Sprint(id))
+				if _, ok := in.(*ssa.Phi); ok {
+					phis = append(phis, fmt.Sprint(id))
+				}
+				id++
+			}
+			blocks = append(blocks, strings.Join(l, ","))
+			succs = append(succs, csv(b.Succs))
+			preds = append(preds, csv(b.Preds))
+		}
+		return strings.Join(blocks, ";") + "|" + strings.Join(succs, ";") + "|" + strings.Join(preds, ";") + "|" + strings.Join(phis, ","), ids
+	}
+	pairsOf := func(m map[ssa.Instruction]ssa.Instruction, oldIDs, newIDs map[ssa.Instruction]int) string {
+		type pr struct{ o, n int }
+		var l []pr
+		for o, n := range m {
+			l = append(l, pr{oldIDs[o], newIDs[n]})
+		}
+		sort.Slice(l, func(i, j int) bool { return l[i].o < l[j].o })
+		var p []string
+		for _, x := range l {
+			p = append(p, fmt.Sprintf("%d:%d", x.o, x.n))
+		}
+		if len(p) == 0 {
+			return "-"
+		}
+		return strings.Join(p, ",")
+	}
 	runPair := func(tag, srcA, srcB string) {
 		fa, err := writeModule(c.Work, tag+"_a", "a.go", srcA)
 		if err != nil {
@@ -242,8 +297,20 @@ func suiteZipEq(c *Ctx) error {
 			if err != nil {
 				continue
 			}
+			preMaps = nil
 			if _, err := z.ComputeDiff(); err == nil {
 				pairsRun++
+				if preMaps != nil && len(x.GetSSAFunction().Blocks) <= 400 {
+					lo, oldIDs := layoutOf(x.GetSSAFunction())
+					ln, newIDs := layoutOf(y.GetSSAFunction())
+					post, _ := z.VerifInstrMaps()
+					cfLines = append(cfLines, "enforce\t"+lo+"\t"+ln+"\t"+pairsOf(preMaps, oldIDs, newIDs))
+					cfWant = append(cfWant, pairsOf(post, oldIDs, newIDs))
+					cfInfo = append(cfInfo, fmt.Sprintf("%s %s: %d pairs before, %d after", tag, x.FunctionName, len(preMaps), len(post)))
+					if len(post) != len(preMaps) {
+						c.Count("enforce_undid_pairs")
+					}
+				}
 			}
 		}
 	}
@@ -297,6 +364,19 @@ func suiteZipEq(c *Ctx) error {
 			c.Res.ModelDiffs++
 			c.ViolateNoInput("C09", "C09/model-correspondence:areEquivalent", fmt.Sprintf("areEquivalent says %v, the Lean model says %s for %s", tr.want[i], o, trunc(tr.info[i], 300)),
 				map[string]interface{}{"broken": "correspondence Sfw.ZipEquiv.areEquivalent (theorems C09_equivalent_*)", "decision": tr.info[i], "model_line": trunc(tr.lines[i], 4000)})
+		}
+	}
+	cfOuts, err := RunModel(c.Model, "zipequiv", cfLines)
+	if err != nil {
+		return err
+	}
+	for i, o := range cfOuts {
+		c.Res.Evaluations++
+		c.Count("enforce_differential")
+		if o != cfWant[i] {
+			c.Res.ModelDiffs++
+			c.ViolateNoInput("C04", "C04/model-correspondence:enforceControlFlow", fmt.Sprintf("%s: the pairs that survive enforceControlFlow differ from the Lean model's", cfInfo[i]),
+				map[string]interface{}{"broken": "correspondence Sfw.ZipperCF.enforce (theorems C04_enforce_*)", "pair": cfInfo[i], "model_line": trunc(cfLines[i], 4000), "impl": trunc(cfWant[i], 2000), "model": trunc(o, 2000)})
 		}
 	}
 	var ks []string
